@@ -26,6 +26,7 @@ RULE = ("(a) fed sequences of 2..14 (objective, violation) pairs drawn from a "
         "clause (b)")
 RULE += ("  Also (b'): non-default feasibility tolerances (0, 1e-14, 1e-3) on problems whose solution lies on a curved constraint approached from outside; knife-edge judged with each point's own rounding slack.")
 RULE += (' Family e2e_soc: early-stopped runs rich in second-order corrections; the returned point is judged with its TRUE values and must be a point that was evaluated.')
+RULE += (" e2e_tol also with scale=True on wide inactive boxes (the tolerance is not rescaled).")
 ASSUMPTIONS = [
     "only the clauses the statement fixes are demanded (S1 feasible-first "
     "least objective, S2 least merit + not dominated + NaN never preferred, "
@@ -189,6 +190,16 @@ def run_case(case):
         spec["options"]["feasibility_tol"] = float(rng.choice(
             [0.0, 0.0, 1e-14, 1e-3]))
         spec.pop("scribble", None)
+        if rng.random() < 0.4:
+            # a wide finite box that is never active, rescaled: the stated
+            # tolerance applies to the user's violations as they are
+            hw = 10.0 ** rng.uniform(0.5, 2.5, n)
+            spec["bounds"] = {"lb": (x0 - hw * rng.uniform(0.3, 1, n)).tolist(),
+                              "ub": (x0 + hw * rng.uniform(0.3, 1, n)).tolist(),
+                              "form": "Bounds", "patterns": ["wide"] * n}
+            spec["options"]["scale"] = True
+            spec["options"]["feasibility_tol"] = float(rng.choice(
+                [1e-3, 1e-5, 1e-6, 1e-8]))
     else:
         spec = gen.general(rng, with_faults=(case["fam"] == "e2e_nan"),
                            maxfev=(20, 100), fun_none=0.05,
